@@ -269,11 +269,13 @@ def _(self: "DM14Server"):
 
 # ------------------------------------------------------------------ facade (MemoryAccess)
 
-@unit("j1939.memory_access:MemoryAccess.read", props=["C18", "C17"])
+@unit("j1939.memory_access:MemoryAccess.read", props=["C18", "C17", "C19"])
 def _(self: "MemoryAccess", dest_address: "int", direct: "int", address: "int", object_count: "int", object_byte_size: "int",
       signed: "bool", return_raw_bytes: "bool", max_timeout: "real"):
     opaque("Dm14Query.read")
     opaque_raises("Dm14Query.read", "RuntimeError", "AssertionError", "IndexError")
+    # while the query runs the facade is in WAIT_QUERY: requests arriving meanwhile are answered busy (C19.facade.busy_while_query)
+    callout_check("C19.facade.read.wait_query", implies(ev.fn == fn("Dm14Query.read"), self.state == DMState.WAIT_QUERY))
     returns("any")
     let("n0", len(trace))
     let("idle", old(self.state) == DMState.IDLE)
@@ -288,11 +290,12 @@ def _(self: "MemoryAccess", dest_address: "int", direct: "int", address: "int", 
             self.state == DMState.IDLE)
 
 
-@unit("j1939.memory_access:MemoryAccess.write", props=["C18", "C17"])
+@unit("j1939.memory_access:MemoryAccess.write", props=["C18", "C17", "C19"])
 def _(self: "MemoryAccess", dest_address: "int", direct: "int", address: "int", values: "list(int)", object_byte_size: "int",
       max_timeout: "real"):
     opaque("Dm14Query.write")
     opaque_raises("Dm14Query.write", "RuntimeError", "AssertionError", "OverflowError", "IndexError")
+    callout_check("C19.facade.write.wait_query", implies(ev.fn == fn("Dm14Query.write"), self.state == DMState.WAIT_QUERY))
     let("n0", len(trace))
     let("idle", old(self.state) == DMState.IDLE)
     raises(["RuntimeError", "AssertionError", "OverflowError", "IndexError"], post=self.state == DMState.IDLE and len(trace) == n0 + 1,
@@ -309,7 +312,7 @@ def key_ok(ma):
             and ma.server._key_from_seed(ma.server.seed) == ma.server.key)
 
 
-@unit("j1939.memory_access:MemoryAccess._listen_for_dm14", props=["C18", "C19"])
+@unit("j1939.memory_access:MemoryAccess._listen_for_dm14", props=["C18", "C19", "C17"])
 def _(self: "MemoryAccess", priority: "int", pgn: "int", sa: "int", timestamp: "real", data: "octets"):
     requires(octets(data), len(data) == 8, 0 <= sa <= 255, self.server.length == 8, 0 <= self.server.error < 2**24,
              # set_seed_key_algorithm switches the key exchange on for facade and server together
@@ -339,6 +342,10 @@ def _(self: "MemoryAccess", priority: "int", pgn: "int", sa: "int", timestamp: "
             and forall(lambda j: trace[j].fn != self._proceed_function and trace[j].fn != self._notify_query_received, n0, len(trace))
             and len(trace) == n0 + 1
             and is_dm15_call(trace[-1], self.server, 8, bits(data[1], 4, 4), DM15_OPERATION_FAILED, ResponseState.SEND_ERROR, data[0], sa)))
+    # a request while the server is still busy with a transaction (e.g. waiting for the closing DM14) is not taken as a new one:
+    # nothing reaches the application, nothing changes
+    ensures("C19.facade.server_running", implies(pgn == PGN_DM14 and st0 == DMState.IDLE and old(self.server.state) != ResponseState.IDLE,
+            len(trace) == n0 and unchanged(self.state, self.server.state, self.server.sa)))
     # a request while the application still owes the answer to the previous one (WAIT_RESPONSE) is not looked at
     ensures("C19.facade.wait_response", implies(pgn == PGN_DM14 and st0 == DMState.WAIT_RESPONSE, len(trace) == n0 and unchanged(self.state)))
 
